@@ -21,8 +21,8 @@ RULE = ('scripted models (1-4 variables, 1-5 periods) run as a sequence of 1-5 c
         'boundaries, max_iter=0, min_iter>max_iter, non-convergence under failures=raise/ignore, NaN/inf at a pass under raise/skip/ignore/replace/'
         'invalid, warnings with and without catch_first_error, exceptions in _evaluate / pre-hook / post-hook, pre-existing NaN, offsets in '
         'and out of the span, infeasible periods (lags/leads), hooks that write), then random call sequences incl. repeated solves of one '
-        'period (same names, other names of the same width = stale-names finding, another width = finding #16, reset=True, tracing switched off '
-        'in between), direct trace_t / trace_period calls (any label, trace None / False / [] / \'\' / unknown names, t or label outside the span) '
+        'period (same names, other names of the same or of another width — the Trace has to start afresh —, reset=True, tracing switched '
+        'off in between), direct trace_t / trace_period calls (any label, trace None / False / [] / \'\' / unknown names, t or label outside the span) '
         'before, between and after solves, histories (between two calls the user assigns a whole series `m.V = [...]`, or continues on m.copy() / '
         'm.reindex(<same span>)), reindex to a longer span / copy followed by traced solves of an old and of a new period (exhaustive small lattice; '
         'the original instance is watched too), TRACE_VARIABLES None / subset / empty, unknown names, t outside the span, solve() with unknown start / end '
@@ -57,8 +57,6 @@ ASSUMPTIONS = ['the user\'s _evaluate / solve_t_before / solve_t_after modify va
 EXHAUSTIVE = {'quick': False, 'thorough': False}
 CASE_TIMEOUT = 30
 
-KNOWN_SIG = 'C17|TracerMixin.trace_t<-solve*|trace-width-mismatch-on-repeated-solve|ValueError'
-STALE_SIG = 'C17|TracerMixin.trace_t<-solve*|stale-names-on-repeated-solve|snapshots-filed-under-other-names'
 
 
 # --------------------------------------------------------------------------- the trace= argument
@@ -72,7 +70,7 @@ def py_trace(a, alias=False):
     if k == 'name':
         return nm % a[1]
     if k == 'list':
-        return [(nm if j % 2 == 0 else 'V%d') % i for j, i in enumerate(a[1])]
+        return [nm % i for i in a[1]]
     if k == 'tuple':
         return tuple(nm % i for i in a[1])
     if k == 'empty_str':
@@ -252,7 +250,6 @@ def _state_op(m, call, span):
 
 
 # --------------------------------------------------------------------------- reindex() / copy() of a traced instance
-RX_NEW_SIG = 'C17|TracerMixin.trace_t<-reindex|new-period-holds-None-instead-of-a-Trace|AttributeError'
 
 
 def impl_rx(case):
@@ -316,11 +313,8 @@ def oracle_rx(case, obs):
     if not same_a:
         bad('C17|TracerMixin|traced-differs-from-untraced', 'after %s: traced solve_t(0) gives %s, untraced %s' % (case['via'], x['outA'], u['outA']))
     if x['outB'] is not None and x['outB'] != u['outB']:
-        if x['outB'][:2] == ['raise', 'AttributeError']:
-            bad(RX_NEW_SIG, 'after m.reindex(<longer span>) solve_t(%d, trace=%r) on the new period raises AttributeError (the cell holds None, not a Trace); without trace= it gives %s'
-                % (case['n'], py_trace(case['trace']), u['outB']))
-        else:
-            bad('C17|TracerMixin|traced-differs-from-untraced', 'after reindex: traced solve_t of the new period gives %s, untraced %s' % (x['outB'], u['outB']))
+        bad('C17|TracerMixin|traced-differs-from-untraced', 'after m.reindex(<longer span>): traced solve_t(%d, trace=%r) of the NEW period gives %s, untraced %s'
+            % (case['n'], py_trace(case['trace']), x['outB'], u['outB']))
     elif x['outB'] is not None and any(x[k] != u[k] for k in ('vals', 'status', 'iters')):
         bad('C17|TracerMixin|traced-differs-from-untraced', 'after reindex: traced and untraced instances differ in values / status / iterations')
     return fails
@@ -966,17 +960,6 @@ def oracle(case, obs):
             if not clean:
                 bad('C17|TracerMixin|unknown-name-or-period-not-rejected-cleanly', 'call %d: expected KeyError/IndexError with no change, got %s' % (ci, s['out']))
             break
-        # finding #16: an addressed period was traced before with another number of names (and reset is off).  The traced
-        # call then dies in Trace.append (ValueError, label already appended) — reported under its own signature whether
-        # or not the twin happens to raise a ValueError of its own (min_iter > max_iter).
-        wide = [p for p in (periods or []) if on and not reset and prev['traces'][p]['values']
-                and len(prev['traces'][p]['values'][0]) != len(names)]
-        if wide and s['out'][:2] == ['raise', 'ValueError'] and (
-                not same or any(len(s['traces'][p]['index']) != len(s['traces'][p]['values']) for p in wide)):
-            p0 = wide[0]
-            bad(KNOWN_SIG, 'call %d: %s(..., trace=%r) raises ValueError (np.hstack in Trace.append) because period %d was traced before with '
-                '%d name(s); the same call without trace= gives %s' % (ci, ent, py_trace(a), p0, len(prev['traces'][p0]['values'][0]), tw['out']))
-            break
         if s.get('kwlog') != s.get('twin_kwlog'):
             bad('C17|TracerMixin|hooks-receive-other-keywords-when-traced', 'call %d: the user hooks of the traced run received %s, those of the untraced run %s'
                 % (ci, [e for e in s['kwlog'] if e not in s['twin_kwlog']][:2], [e for e in s['twin_kwlog'] if e not in s['kwlog']][:2]))
@@ -1043,9 +1026,13 @@ def _check_shapes(case, call, ci, s, prev, names, periods, bad):
             attempted = [(p, 'unsolved' if out[1] == 'NonConvergenceError' else 'error')]
     for p, how in attempted:
         before, after = prev['traces'][p], s['traces'][p]
-        if before['values'] and before['names'] != names and after['names'] == names:
-            # the period was traced before under OTHER names and the call started a fresh Trace for the names traced now (what
-            # a repair of finding #16 / the stale-names finding has to do: one array cannot hold both): judged as a first trace
+        if before['values'] and before['names'] != names and after != before:
+            # the period was traced before under OTHER names: one array cannot hold both sets, the call has to start a fresh
+            # Trace for the names traced now (fix 7d04ae5) — judged as a first trace
+            if after['names'] != names:
+                bad('C17|TracerMixin|trace-names', 'call %d period %d: %s(..., trace=%r) recorded variables %s into a Trace whose names stay %s'
+                    % (ci, p, ent, py_trace(call.get('trace', ['omit'])), names, after['names']))
+                continue
             before = copy.deepcopy(EMPTY)
         nb = len(before['index'])
         if after['index'][:nb] != before['index'] or after['values'][:len(before['values'])] != before['values']:
@@ -1054,10 +1041,6 @@ def _check_shapes(case, call, ci, s, prev, names, periods, bad):
         if not before['values'] and after['names'] != names:
             bad('C17|TracerMixin|trace-names', 'call %d period %d: Trace.names=%s, traced variables=%s' % (ci, p, after['names'], names))
             continue            # every snapshot is of the wrong variables: one report, not six
-        if before['values'] and after != before and after['names'] != names:
-            # (same width, or the call would have died: finding #16) the snapshots just appended hold `names`, the Trace says otherwise
-            bad(STALE_SIG, 'call %d period %d: %s(..., trace=%r) appended snapshots of variables %s to a Trace whose names stay %s'
-                % (ci, p, ent, py_trace(call.get('trace', ['omit'])), names, after['names']))
         new_idx = after['index'][nb:]
         new_val = after['values'][len(before['values']):]
         if len(new_idx) != len(new_val):
@@ -1092,11 +1075,7 @@ def _check_shapes(case, call, ci, s, prev, names, periods, bad):
                 if new_val[1] != exp_before:
                     bad('C17|TracerMixin|before-snapshot', 'call %d period %d: before snapshot %s, expected %s' % (ci, p, new_val[1], exp_before))
             fr = s['frames'][p]
-            if len(before['index']) != len(before['values']):
-                # an earlier failed append (finding #16) left a label without a column in this Trace: every later frame is off
-                if fr[0] != 'df':
-                    bad(KNOWN_SIG, 'call %d period %d: Trace.to_dataframe() raises %s — the Trace still carries the label of the append that failed earlier' % (ci, p, fr[1]))
-            elif fr[0] != 'df' or fr[1] != after['index'] or fr[2] != after['names'] or fr[3] != after['values']:
+            if fr[0] != 'df' or fr[1] != after['index'] or fr[2] != after['names'] or fr[3] != after['values']:
                 bad('C17|TracerMixin|to_dataframe', 'call %d period %d: Trace.to_dataframe() is not the labels x names table of the Trace: %s' % (ci, p, str(fr)[:200]))
         else:
             if not _is_prefix_of_run(new_idx) or 'end' in new_idx[:-1]:
@@ -1554,7 +1533,7 @@ def _random_case(rng, scen):
     c = _case(nvars=nv, check=check, endo=endo, n=n, lags=lags, leads=leads, trace_variables=tv)
     c['span_kind'] = rng.choice(['list'] * 6 + ['array'] * 2 + ['index'] * 2)      # the span object: list.index / the array fallback / pandas get_loc
     if rng.random() < 0.12 and (tv is None or all(i < nv for i in tv)):
-        c['aliases'] = rng.choice([True, 'tv'])     # AliasMixin stacked under the tracer; trace= (and TRACE_VARIABLES) use alias names
+        c['aliases'] = 'tv' if tv is not None else True     # AliasMixin stacked under the tracer; trace= and TRACE_VARIABLES use alias names
     palette = sc.PALETTE_FINITE
     for p in range(n):
         if rng.random() < 0.7:
@@ -1654,5 +1633,14 @@ def _random_case(rng, scen):
         calls.append(cl)
     elif r < 0.13:
         calls.append({'entry': 'solve_period', 'label': 1999, 'opts': _opts(), 'trace': ['flag', True]})
+    if c.get('aliases') and tv is None:
+        # An alias is read as the variable it denotes (ids), but since fix 7d04ae5 trace_t compares the name STRINGS of
+        # successive calls: keep every traced call of an alias case on alias names — the class defaults (self.names) are the
+        # variables' own names, so calls that would fall back on them get the explicit list of all aliases instead
+        for cl in calls:
+            a_ = cl.get('trace', ['omit'])
+            defaults = a_[0] in ('genexp', 'set') or a_ == ['flag', True] or (cl['entry'] in DIRECT and a_[0] in ('omit', 'none', 'flag'))
+            if defaults and cl['entry'] not in STATE_OPS:
+                cl['trace'] = ['list', list(range(nv))]
     c['calls'] = calls
     return c
